@@ -297,6 +297,10 @@ class C15(core.Prop):
             act = act[:-1]
         if exp and exp[-1] == '':
             exp = exp[:-1]
+        if pp:
+            return 'preprocess: a preprocessing function was given'
+        if case['entry'] == 'string' and act != exp:
+            return 'string: the actual text was given as a string and differs'
         rem = o.get('remove_lines') or []
         if any(any(x in l for x in rem) for l in act):
             return 'removed: a line of the actual text'
